@@ -25,7 +25,8 @@ class DatasetAxes(Axes):
         self._ds = ds  # attached dataset
 
     def __setitem__(self, key, item):
-        name = self[key].name # the axis may be given by position
+        key = self._get_idx(key) # by position from here on: the new axis may bring a new name
+        name = self[key].name
         super(DatasetAxes, self).__setitem__(key, item)
         # also apply the change to the contained DimArrays
         for k in self._ds.keys():
